@@ -19,7 +19,7 @@ class Run:
 
 
 def run_portfolio(spec, split=None, solver=None, do_optimize=True, do_extract=True, built=None, fix_time_window=None,
-                  rec=None, prices=None, skip_nodes=None, one_call=False):
+                  rec=None, prices=None, skip_nodes=None, one_call=False, data_form='dict'):
     """Executes the real calls. Exceptions are caught and reported with the stage they came from."""
     r = Run()
     import eaopack.io as eio
@@ -41,7 +41,12 @@ def run_portfolio(spec, split=None, solver=None, do_optimize=True, do_extract=Tr
                 # the documented shortcut eaopack.io.optimize: same calls, made by EAO itself; problem / result taken from the recorded events
                 n0 = len(rc.events)
                 r.stage = 'one_call'
-                r.out = eio.optimize(b.portfolio, b.timegrid, pr, split_interval_size=split)
+                data = pr
+                if data_form != 'dict':
+                    import pandas as pd
+                    # the documented DataFrame forms of the input data: positional (integer index) or indexed by the grid's own time points
+                    data = pd.DataFrame({k: np.asarray(v, float) for k, v in pr.items()}, index=(b.timegrid.timepoints if data_form == 'frame_time' else None))
+                r.out = eio.optimize(b.portfolio, b.timegrid, data, split_interval_size=split)
                 evs = rc.events[n0:]
                 top = [e for e in evs if e.kind == ('split_setup' if split else 'portfolio_setup') and e.ret is not None]
                 r.op = top[0].ret if top else None
